@@ -32,8 +32,11 @@ def gen_history(rng, weights):
         elif r < weights["update"] + weights["nochange"] + weights["failed"]:
             ops.append(("failed", rng.choice(["error", "malformed"])))
         elif r < weights["update"] + weights["nochange"] + weights["failed"] + weights["register"]:
-            ops.append(("register", 100 + nreg, rng.choice([10, 10, 11])))     # number, line (shared locations)
-            nreg += 1
+            if rng.random() < 0.15:
+                ops.append(("register-refused",))                              # arguments the agent cannot interpret
+            else:
+                ops.append(("register", 100 + nreg, rng.choice([10, 10, 11])))     # number, line (shared locations)
+                nreg += 1
         elif r < 1 - weights["run"]:
             ops.append(("unregister", rng.randrange(max(nreg, 1) + 1)))        # any handle ever returned, or a never-returned one
         else:
@@ -70,6 +73,17 @@ def drive(ctx, ops, cid):
                     fails.append(("failed-poll-accepted", "an unintelligible poll answer was accepted"))
                 if before != (w.installed(), w.svc.current_hash, len(w.tasks.pending)):
                     fails.append(("failed-poll-altered", "a failed poll altered the installed configuration or the hash"))
+            elif k == "register-refused":
+                before = (w.custom_numbers(), len(w.tasks.pending), w.installed())
+                try:
+                    w.svc.add_custom("reg.py", 10, {"stage": "no_such_stage"}, ["999"], [])
+                    fails.append(("bad-accepted", "a registration with an unknown stage was accepted"))
+                except ValueError:
+                    pass
+                except BaseException as e:
+                    fails.append(("bad-raised", "a registration with an unknown stage raised %r" % (e,)))
+                if before != (w.custom_numbers(), len(w.tasks.pending), w.installed()):
+                    fails.append(("refused-left-trace", "a refused registration changed the registrations / pending tasks"))
             elif k == "register":
                 handle = w.svc.add_custom("reg.py", op[2], {"fire_count": "-1"}, [str(op[1])], [])
                 w.handles.append(handle)
@@ -106,7 +120,9 @@ def drive(ctx, ops, cid):
             fails.append(("handle-shared", "two registrations returned the same handle %r" % (w.handles,)))
         model_ops = []
         for op in ops:
-            if op[0] == "register":
+            if op[0] == "register-refused":
+                model_ops.append(("register-refused",))
+            elif op[0] == "register":
                 model_ops.append(("register", op[1]))
             elif op[0] == "unregister":
                 model_ops.append(("unregister", op[1]))
